@@ -263,6 +263,17 @@ def sample(ctx, budget=1.0, hint=None, broken=None):
                         at_new = {'id': 'new%d' % k, 'stroke': r.choice(vals)}
                         doc.add_path(newp, at_new, group=(list(names) if names else None))
                         added.append((newp, at_new))
+                        # the element must sit exactly in the group chain that was named (not in a same-named group elsewhere)
+                        parent = {ch: pa for pa in doc.tree.iter() for ch in pa}
+                        el = [e for e in doc.tree.iter() if e.get('id') == at_new['id']]
+                        chain = []
+                        cur_el = parent.get(el[0]) if el else None
+                        while cur_el is not None and cur_el is not doc.tree.getroot():
+                            chain.append(cur_el.get('id'))
+                            cur_el = parent.get(cur_el)
+                        if len(el) != 1 or chain[::-1] != list(names):
+                            fail('Document.add_path/wrong group', 'add_path(group=names) did not put the path into the group chain that was named',
+                                 dict(inp, group=list(names), history=[repr(x[1]) for x in added]), repr(chain[::-1]), repr(list(names)))
                     seen = doc.paths()
                     want_all = expect + [spt.parse_path(p.d()) for p, _ in added]
                     for p, a in added:
